@@ -1,7 +1,250 @@
 import KM.Driver.Core
-/-! Driver for C08 (stub until the property's model is built). -/
+import KM.Model.Admin
+/-! Driver for C08: `model` predicts class + effects of one request / the verdicts of one cache
+trace; `judge` applies the property predicate (`effectAllowed`, `statusAllowed`) to what the real
+handlers did. The configuration travels in the op stream (`cfg`, `grp`, `usr`, `endcfg` lines). -/
 namespace KM.Driver.C08
+open KM.Util KM.Admin
 
-def handler (_mode : String) : Option Handler := none
+structure DState where
+  cfg : Cfg
+  groups : List (Name × List Name)
+  users : List (Name × Bool)
+
+def DState.init : DState :=
+  { cfg := { adminUsers := [], adminGroups := [], automationUsers := [], automationUserGroups := [],
+             automationAdmins := [], webUIRequired := 0 },
+    groups := [], users := [] }
+
+def unhexName (s : String) : Option Name := (unhex s).map String.toList
+
+def hexName (n : Name) : String := hex (String.ofList n)
+
+def parseList (s : String) : Option (List Name) :=
+  if s == "-" then some [] else (s.splitOn ",").mapM unhexName
+
+/-- `getRequiredWebUIAuthLevel` -/
+def backendBit (n : Name) : Nat :=
+  let s := String.ofList n
+  if s == KM.Gen.protoAuthTypePassword then KM.Gen.authTypePassword
+  else if s == KM.Gen.protoAuthTypeFederated then KM.Gen.authTypeFederated
+  else if s == KM.Gen.protoAuthTypeU2F then KM.Gen.authTypeU2F
+  else if s == KM.Gen.protoAuthTypeSymantecVIP then KM.Gen.authTypeSymantecVIP
+  else if s == KM.Gen.protoAuthTypeTOTP then KM.Gen.authTypeTOTP
+  else if s == KM.Gen.protoAuthTypeOkta2FA then KM.Gen.authTypeOkta2FA
+  else if s == KM.Gen.protoAuthTypeBootstrapOTP then KM.Gen.authTypeBootstrapOTP
+  else 0
+
+def groupsOf (st : DState) (dirdown : Bool) : Groups := fun u =>
+  if dirdown then none
+  else some (((st.groups.find? (fun p => p.1 == u)).map (·.2)).getD [])
+
+def parseAction (s : String) : TokAction :=
+  if s == "Update" then .update else if s == "Disable" then .disable
+  else if s == "Enable" then .enable else if s == "Delete" then .delete else .other
+
+def parseOp (op action : String) : Option Op :=
+  match op with
+  | "view" => some .viewProfile
+  | "mu2f" => some (.manageU2F (parseAction action))
+  | "mtotp" => some (.manageTOTP (parseAction action))
+  | "totpgen" => some .totpGenerate
+  | "totpval" => some .totpValidateNew
+  | "u2fbeg" => some .u2fRegBegin
+  | "u2ffin" => some .u2fRegFinish
+  | "wabeg" => some .waRegBegin
+  | "wafin" => some .waRegFinish
+  | "list" => some .listUsers
+  | "add" => some .addUser
+  | "del" => some .deleteUser
+  | "botp" => some .bootstrapOTP
+  | "role" => some .roleCert
+  | _ => none
+
+/-- `^[A-Za-z0-9-_.]+$` -/
+def nameValid (n : Name) : Bool :=
+  !n.isEmpty && n.all (fun c => c.isAlphanum || c == '-' || c == '_' || c == '.')
+
+/-- fixture: users with tokens hold U2F 1,2, WebAuthn 11,12 and TOTP 21,22 -/
+def indexPresent (op : Op) (hasTok : Bool) (index : String) : Bool :=
+  match index.toNat? with
+  | none => false
+  | some i =>
+    hasTok && (match op with
+      | .manageU2F _ => i == 1 || i == 2 || i == 11 || i == 12
+      | .manageTOTP _ => i == 21 || i == 22
+      | _ => false)
+
+def envFor (st : DState) (op : Op) (eff : Name) (index : String) (pending proof : Bool) : Env :=
+  let u := st.users.find? (fun p => p.1 == eff)
+  let hasTok := (u.map (·.2)).getD false
+  { targetExists := u.isSome, indexPresent := indexPresent op hasTok index, nameValid := nameValid eff,
+    hasTokens := hasTok, pending := pending, proofValid := proof }
+
+def effStr : Effect → String
+  | .changed u => "chg:" ++ hexName u
+  | .read u => "read:" ++ hexName u
+  | .listed => "list"
+  | .cert cn => "cert:" ++ hexName cn
+
+def denyClass : Deny → String
+  | .session | .notAdmin | .notSelf => "deny:401"
+  | .notAutoAdmin => "deny:403"
+  | .badIdentity | .notAutoUser | .lookupError => "reject"
+
+def outcomeStr : Outcome → String
+  | .denied w => denyClass w ++ " -"
+  | .rejected => "reject -"
+  | .done [] => "ok -"
+  | .done effs => "ok " ++ " ".intercalate (effs.map effStr)
+
+def parseEffect (s : String) : Option Effect :=
+  if s == "list" then some .listed
+  else match s.splitOn ":" with
+    | ["chg", h] => (unhexName h).map .changed
+    | ["read", h] => (unhexName h).map .read
+    | ["cert", h] => (unhexName h).map .cert
+    | _ => none
+
+def cfgStep (st : DState) : List String → Option DState
+  | ["cfg", a, b, c, d, e, f] => do
+    let a ← parseList a; let b ← parseList b; let c ← parseList c
+    let d ← parseList d; let e ← parseList e; let f ← parseList f
+    let req := f.foldl (fun acc n => acc ||| backendBit n) 0
+    let cfg : Cfg := ⟨a, b, c, d, e, req⟩
+    pure { st with cfg := cfg }
+  | ["grp", u, gs] => do
+    let u ← unhexName u; let gs ← parseList gs
+    pure { st with groups := st.groups ++ [(u, gs)] }
+  | ["usr", u, t] => do
+    let u ← unhexName u; let t ← parseBool t
+    pure { st with users := st.users ++ [(u, t)] }
+  | ["endcfg"] => some st
+  | _ => none
+
+/-! ### cache traces -/
+
+def cacheEvent (maxDur : Nat) (s : CState) (ev : String) : Option (CState × Option String) :=
+  match ev.toList with
+  | 'a' :: rest => (String.ofList rest).toNat?.map (fun d => (cstep maxDur s (.advance d), none))
+  | 'c' :: rest =>
+    match (String.ofList rest).splitOn ":" with
+    | [h, k] => do
+      let u ← unhexName h
+      let dir ← (if k == "T" || k == "G" then some (some true) else if k == "F" then some (some false)
+                 else if k == "E" then some none else none)
+      let s' := cstep maxDur s (.call u dir)
+      let v := (s'.rets.head?.map (·.verdict)).getD false
+      pure (s', some ("c" ++ boolStr v))
+    | _ => none
+  | 'g' :: rest => do
+    let u ← unhexName (String.ofList rest)
+    let r := Cache.get maxDur s.cache s.now u
+    pure (s, some ("g" ++ boolStr r.1 ++ boolStr r.2))
+  | 'p' :: rest =>
+    match (String.ofList rest).splitOn ":" with
+    | [h, v] => do
+      let u ← unhexName h
+      let b ← parseBool v
+      pure ({ s with cache := s.cache.upd u ⟨b, s.now, none⟩ }, some "p")
+    | _ => none
+  | _ => none
+
+def cacheTrace (maxDur : Nat) (evs : List String) : Option (List String) :=
+  let rec go (s : CState) (acc : List String) : List String → Option (List String)
+    | [] => some acc.reverse
+    | ev :: rest =>
+      match cacheEvent maxDur s ev with
+      | none => none
+      | some (s', none) => go s' acc rest
+      | some (s', some o) => go s' (o :: acc) rest
+  -- the harness clock starts at a non-zero instant
+  go (CState.init 1700000000000) [] evs
+
+def modelStep (st : DState) (fs : List String) : DState × String :=
+  match fs with
+  | ["req", actor, dd, level, op, action, target, index, pending, proof] =>
+    match unhexName actor, parseBool dd, level.toNat?, parseOp op action, unhexName target,
+          parseBool pending, parseBool proof with
+    | some actor, some dd, some level, some op, some target, some pending, some proof =>
+      let d := authorize op actor level target st.cfg (groupsOf st dd)
+      let eff := match d with | .pass e => e | .deny _ => target
+      (st, outcomeStr (outcome op d (envFor st op eff index pending proof)))
+    | _, _, _, _, _, _, _ => (st, "bad-op")
+  | ["cseq", ms, evs] =>
+    match ms.toNat? with
+    | some ms =>
+      match cacheTrace ms ((evs.splitOn ",").filter (· ≠ "")) with
+      | some [] => (st, "-")
+      | some out => (st, " ".intercalate out)
+      | none => (st, "bad-op")
+    | none => (st, "bad-op")
+  | _ =>
+    match cfgStep st fs with
+    | some st' => (st', "ok")
+    | none => (st, "bad-op")
+
+/-! ### judging an observed cache history -/
+
+/-- walk the events with the verdicts the real `IsAdminUser` returned (`c0`/`c1` tokens, `g..`/`p`
+tokens of the raw probes are skipped); every verdict must satisfy `blackboxOK` with respect to what
+the directory offered at the calls so far (theorem `c08_cache_observable` at that prefix) -/
+def judgeTrace (maxDur : Nat) : Nat → List Consult → Nat → List String → List String → String
+  | _, _, _, [], _ => "ok"
+  | now, offered, k, ev :: evs, toks =>
+    match ev.toList with
+    | 'a' :: rest =>
+      match (String.ofList rest).toNat? with
+      | some d => judgeTrace maxDur (now + d) offered k evs toks
+      | none => "bad-op"
+    | 'c' :: rest =>
+      match (String.ofList rest).splitOn ":", toks with
+      | [h, kd], tok :: toks' =>
+        match unhexName h, (if kd == "T" || kd == "G" then some (some true) else if kd == "F" then some (some false)
+                            else if kd == "E" then some none else none),
+              (if tok == "c1" then some true else if tok == "c0" then some false else none) with
+        | some u, some dir, some v =>
+          let offered' := (⟨now, u, dir⟩ : Consult) :: offered
+          if blackboxOK maxDur offered' now u v then judgeTrace maxDur now offered' (k + 1) evs toks'
+          else s!"viol unexplained-verdict call={k} user={hexName u} verdict={boolStr v} t={now - 1700000000000}ms"
+        | _, _, _ => "bad-op"
+      | _, _ => "bad-op"
+    | 'g' :: _ => judgeTrace maxDur now offered k evs (toks.drop 1)
+    | 'p' :: _ => "ok"  -- a raw Put injects a verdict that never came from the directory: not judged further
+    | _ => "bad-op"
+
+def judgeCache : List String → String
+  | ["jc", ms, evs, toks] =>
+    match ms.toNat? with
+    | some ms => judgeTrace ms 1700000000000 [] 0 ((evs.splitOn ",").filter (· ≠ ""))
+                   ((toks.splitOn ",").filter (fun t => t ≠ "" && t ≠ "-"))
+    | none => "bad-op"
+  | _ => "bad-op"
+
+/-- `j <actor> <dirdown> <level> <op> <action> <target> <class> <effect>…` -/
+def judgeStep (st : DState) (fs : List String) : DState × String :=
+  match fs with
+  | "j" :: actor :: dd :: level :: op :: action :: target :: cls :: effs =>
+    match unhexName actor, parseBool dd, level.toNat?, parseOp op action, unhexName target,
+          (effs.filter (· ≠ "-")).mapM parseEffect with
+    | some actor, some dd, some level, some op, some target, some effs =>
+      let g := groupsOf st dd
+      match effs.find? (fun e => !effectAllowed st.cfg g op actor level target e) with
+      | some e => (st, "viol effect=" ++ effStr e)
+      | none =>
+        if cls == "ok" && !statusAllowed st.cfg g op actor then (st, "viol status=ok-for-non-admin")
+        else if cls == "ok" || cls == "reject" || cls == "deny:401" || cls == "deny:403" then (st, "ok")
+        else (st, "bad-op")
+    | _, _, _, _, _, _ => (st, "bad-op")
+  | "jc" :: _ => (st, judgeCache fs)
+  | _ =>
+    match cfgStep st fs with
+    | some st' => (st', "ok")
+    | none => (st, "bad-op")
+
+def handler (mode : String) : Option Handler :=
+  if mode == "model" then some { σ := DState, init := DState.init, step := modelStep }
+  else if mode == "judge" then some { σ := DState, init := DState.init, step := judgeStep }
+  else none
 
 end KM.Driver.C08
